@@ -290,3 +290,13 @@ func readLines(path string) []string {
 	}
 	return out
 }
+
+// seedRng: rng.go's states for seeds k and k+1 are one step apart on the same
+// splitmix64 orbit, so consecutive seeds give shifted copies of one stream; the
+// handler commands hash the seed first.
+func seedRng(seed uint64) *rng {
+	z := seed + 0x632be59bd9b4e019
+	z = (z ^ (z >> 30)) * 0xbf58476d1ce4e5b9
+	z = (z ^ (z >> 27)) * 0x94d049bb133111eb
+	return newRng(z ^ (z >> 31))
+}
